@@ -4685,11 +4685,13 @@ class PyCdlib:
         # If we made it here, we have successfully updated all of the in-memory
         # metadata.  Now we can go and modify the on-disk file.
 
-        self._seek_to_extent(self.pvd.extent_location())
-
-        # First write out the PVD.
-        rec = self.pvd.record()
-        self._cdfp.write(rec)
+        # First write out the PVD, and any duplicates of it; they all have to
+        # carry the same modification date.
+        mod_time = time.time()
+        for pvd in self.pvds:
+            self._seek_to_extent(pvd.extent_location())
+            rec = pvd.record(mod_time)
+            self._cdfp.write(rec)
 
         # Write out the joliet VD.
         if self.joliet_vd is not None:
